@@ -19,6 +19,7 @@ package index
 
 import (
 	"os"
+	"sync"
 
 	"go.uber.org/atomic"
 
@@ -51,7 +52,8 @@ type Sequence struct {
 	tagKey   *atomic.Uint32
 	tagValue *atomic.Uint32
 
-	buf []byte // mmap buf
+	buf   []byte     // mmap buf
+	mutex sync.Mutex // guards the stores into buf
 }
 
 // NewSequence creates a Sequence.
@@ -89,26 +91,41 @@ func (s *Sequence) GetMetricNameSeq() uint32 {
 
 // GenNamespaceSeq generates sequence for namespace.
 func (s *Sequence) GenNamespaceSeq() uint32 {
-	return s.ns.Inc() - 1
+	return s.next(s.ns, NamespaceOffset)
 }
 
 // GenMetricNameSeq generates sequence for metric name.
 func (s *Sequence) GenMetricNameSeq() uint32 {
-	return s.metric.Inc() - 1
+	return s.next(s.metric, MetricNameOffset)
 }
 
 // GenTagKeySeq generates sequence for tag key.
 func (s *Sequence) GenTagKeySeq() uint32 {
-	return s.tagKey.Inc() - 1
+	return s.next(s.tagKey, TagKeyOffset)
 }
 
 // GenTagValueSeq generates sequence for tag value.
 func (s *Sequence) GenTagValueSeq() uint32 {
-	return s.tagValue.Inc() - 1
+	return s.next(s.tagValue, TagValueOffset)
+}
+
+// next allocates an id and writes the counter through to the mapped file: ids are referenced by
+// the shard index stores, which are flushed independently of the metadata store, so a counter
+// that only reaches the file in Sync would hand out the same id again after a process crash.
+func (s *Sequence) next(seq *atomic.Uint32, offset int) uint32 {
+	s.mutex.Lock()
+	defer s.mutex.Unlock()
+
+	v := seq.Inc()
+	stream.PutUint32(s.buf, offset, v)
+	return v - 1
 }
 
 // Sync persists the sequence data.
 func (s *Sequence) Sync() error {
+	s.mutex.Lock()
+	defer s.mutex.Unlock()
+
 	stream.PutUint32(s.buf, NamespaceOffset, s.ns.Load())
 	stream.PutUint32(s.buf, MetricNameOffset, s.metric.Load())
 	stream.PutUint32(s.buf, TagKeyOffset, s.tagKey.Load())
